@@ -55,7 +55,7 @@ type info struct {
 }
 
 func genInfos(r *fx.Rng, tr *fx.Trace) []info {
-	n := r.PickInt(0, 1, 1, 2, 2, 3, 3, 4, 5, 6, 8, 12)
+	n := r.PickInt(0, 1, 1, 2, 2, 3, 3, 4, 5, 6, 8, 12, 13, 15, 20, 29, 33, 50) // beyond 12 entries the library sort leaves insertion sort
 	shape := r.Intn(6)
 	var l []info
 	basePrice := r.PickU64(0, 1, 100, 1000, math.MaxUint64-3)
